@@ -436,6 +436,9 @@ func cmdCheck(args []string) {
 			}
 		}
 	}
+	if cases == 0 {
+		fail2("no case was run")
+	}
 	// vacuity: required reach tags
 	for _, run := range spec.Runs {
 		if (run.Thorough && *tier != "thorough") || (*only != "" && run.Entry != *only) || *onlyCase >= 0 {
